@@ -668,6 +668,11 @@ func (m *machine) userChangesMode(viaCommands bool) {
 		// ("the same date": the UTC date of the instant, which the library documents, or
 		// the calendar date the caller's time value carries)
 		own := time.Date(asof.Year(), asof.Month(), asof.Day(), 0, 0, 0, 0, time.UTC)
+		if z := m.s.Zone; plain && z != nil {
+			// (no date was handed over: today's, on the machine's calendar or in UTC)
+			l := now.In(z)
+			own = time.Date(l.Year(), l.Month(), l.Day(), 0, 0, 0, 0, time.UTC)
+		}
 		if err != nil || gotMode != want || !(gotTime.Equal(wantDate) || gotTime.Equal(own)) {
 			m.fail("mode-roundtrip", "SetModeAsOf(%q, %s) then Mode() = (%q, %s), err=%v", want, asof.Format(time.RFC3339), gotMode, gotTime.Format(time.RFC3339), err)
 		}
